@@ -26,6 +26,14 @@ def serEventsOf {α} (serialize : α → List Nat) (v : α) : List Event := [.by
 
 def serEvents (b : Bitmap) : List Event := serEventsOf Bitmap.serialize b
 
+/-- serde.rs:48-58 over the encoder with the exact `u64` arithmetic (`Bitmap.serializeM`, fidelity audit):
+    `self.serialize_into(&mut buf)…?` then one `serialize_bytes(&buf)`; `none` = `serialize_into` panicked (empty
+    container with overflow checks on — never for a well-formed value, `C19_events_mirror`) -/
+def serEventsOfM {α} (serializeM : α → Option (List Nat)) (v : α) : Option (List Event) :=
+  (serializeM v).map fun bs => [.bytes bs]
+
+def serEventsM (ovf : Bool) (b : Bitmap) : Option (List Event) := serEventsOfM (Bitmap.serializeM ovf) b
+
 /-- what a `Deserializer` can answer `deserialize_bytes` with -/
 inductive Input where
   | bytes (bs : List Nat)          -- `visit_bytes(&[u8])`
